@@ -4,5 +4,7 @@ EXTENDS Casts
 ASSUME UnwrapLemma
 ASSUME AgreeLemma
 ASSUME FwdOnlyRefs
+ASSUME IdentityLemma
 ASSUME PrintT(ToJson(TargetsRow))
+ASSUME \A v \in DepthVals : PrintT(ToJson(DepthRow(v)))
 ====
